@@ -13,6 +13,12 @@ package archiver
 // its net contribution is 0 once it has returned, on every exit path.
 //@ func (*archiver).worker
 //@   property C17
+//@   local nIn int = 0
+//@   local nOut int = 0
+//@   local inHand *models.Item = nil
+//@   after selrecv(inputCh)#1: nIn = nIn + ite(opOk, 1, 0); inHand = seed
+//@   after selsend(outputCh)#1: nOut = nOut + 1
+//@   loop for invariant [forwarded-once] @C01 nIn == nOut // C01: each stage forwards the seed exactly once (a received seed is sent on exactly once before the next one is taken; on stop the worker returns instead)
 //@   mode math
 //@   attr noreach stats.ArchiverRoutinesIncr,stats.ArchiverRoutinesDecr
 //@   requires stats.globalStats != nil && stats.globalStats.ArchiverRoutines != nil
